@@ -7,7 +7,7 @@ import tx
 from impl import trees, transform, quiet, clone, tag_uids, mk_leaf, mk_node
 
 ID = "C11"
-MODULE = ['TT.Props.C11', 'TT.Props.C11More']
+MODULE = ['TT.Props.C11', 'TT.Props.C11More', 'TT.Props.Pinned']
 RULE = ("random well-formed trees with punctuation / trace tokens at any depth and position (first, last, only child "
         "of a unary chain, sole content of a constituent); terminal files with valid, out-of-range, 0 and other-sentence "
         "entries; parameters quiet, keep, keepall, keepcoindex, filteroperator/filtervalue. Non-trivial: the output "
